@@ -457,7 +457,9 @@ impl IntoSqlBuilder for LiteralsAndKeywords {
                     message: "FStringList not implemented yet".to_string(),
                 }))
             }
-            LiteralsAndKeywords::StringLit(val) => format!("'{}'", val),
+            // a quote inside the literal is doubled so that it cannot end the
+            // SQL string (standard-conforming strings: backslash is literal)
+            LiteralsAndKeywords::StringLit(val) => format!("'{}'", val.replace('\'', "''")),
             LiteralsAndKeywords::ByteStringLit(_) => {
                 return Ok(Box::new(UnsupportedBuilder {
                     message: "ByteStringLit not implemented yet".to_string(),
